@@ -55,8 +55,20 @@ Section C19.
   (* a contour (or any returned object, or a written file) is never changed by a later operation: design
      conditions, plotting, saving, evaluations and fits leave the contour they are given as it was built *)
   Theorem C19_returned_objects_immutable_partial : forall ops t (h : heap V) c, c < t ->
-    run shape V result effect t ops h (Obj c) = h (Obj c) /\ run shape V result effect t ops h (File c) = h (File c).
+    run shape V result effect t ops h (Obj c) = h (Obj c).
   Proof. exact (objects_immutable shape V result effect). Qed.
+
+  (* exporting: the file of contour c changes only when contour c is saved, and a save OVERWRITES -- the content
+     written is a function of the contour and the arguments, not of what the file held before nor of the position in
+     the history: saving the same contour twice to the same path reproduces the file *)
+  Theorem C19_file_changes_only_at_save_partial : forall ops t (h : heap V) c,
+    (forall o args, In o ops -> o <> OnContour c SaveContour args) -> run shape V result effect t ops h (File c) = h (File c).
+  Proof. exact (file_changes_only_at_save shape V result effect). Qed.
+  Theorem C19_save_overwrites_partial : forall c args t t' (h h' : heap V),
+    (forall x, In x (rset shape (OnContour c SaveContour args)) -> h x = h' x) ->
+    step shape V result effect t (OnContour c SaveContour args) h (File c) =
+    step shape V result effect t' (OnContour c SaveContour args) h' (File c).
+  Proof. exact (save_overwrites shape V result effect). Qed.
 
   (* no operation writes module-level state of virocon (shared by every model) *)
   Theorem C19_module_state_untouched_partial : forall ops t (h : heap V) g, run shape V result effect t ops h (Glob g) = h (Glob g).
@@ -120,6 +132,8 @@ Print Assumptions C19_arrays_unchanged_partial.
 Print Assumptions C19_template_unchanged_partial.
 Print Assumptions C19_no_shared_state_partial.
 Print Assumptions C19_returned_objects_immutable_partial.
+Print Assumptions C19_file_changes_only_at_save_partial.
+Print Assumptions C19_save_overwrites_partial.
 Print Assumptions C19_module_state_untouched_partial.
 Print Assumptions C19_global_rng_partial.
 Print Assumptions C19_figures_partial.
